@@ -100,6 +100,9 @@ void vp_note(const char* fmt, ...) __attribute__((format(printf, 1, 2)));
 
 // progress heartbeat: harness calls it for every completed client operation
 extern _Atomic uint64_t vp_progress_ctr;
+extern _Atomic uint64_t vp_case_ctr;
+// one evaluated case (trial / history / scenario instance)
+static inline void vp_case(void) { atomic_fetch_add_explicit(&vp_case_ctr, 1, memory_order_relaxed); }
 static inline void vp_progress(void) { atomic_fetch_add_explicit(&vp_progress_ctr, 1, memory_order_relaxed); }
 
 // ---- finishing: writes the JSON result file and _exit()s.
@@ -158,6 +161,8 @@ void vp_ghost_report_counters(void);
 // C10 support: maximum number of times a queued fiber was bypassed on its scheduler
 long vp_ghost_max_bypass(void);
 void vp_ghost_reset_bypass(void);
+// online fairness bound: violation (C10) when a queued fiber is bypassed more than base + per_live_fiber * live fibers times
+void vp_ghost_set_bypass_limit(long base, long per_live_fiber);
 // property attribution for ghost violations raised while this harness runs ("C01" by default)
 void vp_ghost_set_props(const char* exec_prop, const char* queue_prop);
 
